@@ -24,7 +24,7 @@ CHECKS = {
               ">=2 periods with a window flag or --last (CLI)."),
         assumptions=["negative --last values are outside the statement and not generated", "dates 1900-2100"],
         quick=dict(tests=[dict(name="TestC11", cases=320000), dict(name="TestC11CLI", cases=4800)]),
-        thorough=dict(tests=[dict(name="TestC11", cases=1600000), dict(name="TestC11CLI", cases=16000),
+        thorough=dict(tests=[dict(name="TestC11", cases=3200000), dict(name="TestC11CLI", cases=64000),
                              dict(name="TestSweepC11", cases=1, env=dict(VERIF_SWEEP=1))]),
     ),
     "C04": dict(
@@ -123,7 +123,7 @@ CHECKS = {
                      "alignment, trailing blanks, line-ending style and annotation-line order inside a directive are layout and not compared",
                      "a directive's terminating newline belongs to the directive where the parser says so (transactions, multi-line assertions)"],
         quick=dict(tests=[dict(name="TestC08", cases=96000), dict(name="TestC08CLI", cases=2400)]),
-        thorough=dict(tests=[dict(name="TestC08", cases=320000), dict(name="TestC08CLI", cases=5600)],
+        thorough=dict(tests=[dict(name="TestC08", cases=1600000), dict(name="TestC08CLI", cases=40000)],
                       fuzz=[dict(name="FuzzC08", seconds=90, seed_corpus=True)]),
     ),
     "C06": dict(
